@@ -113,7 +113,7 @@ def load_specs(directory):
                 elif opt == 'properties':
                     sp.properties = val.split()
                 elif re.match(r'^loop(\d+)\.', opt):
-                    mm = re.match(r'^loop(\d+)\.(invariant\.(.+)|decreases|assigns)$', opt)
+                    mm = re.match(r'^loop(\d+)\.(invariant\.(.+)|decreases|assigns|summary|summary_by)$', opt)
                     if not mm:
                         raise ValueError('%s: bad loop key %s' % (path, opt))
                     lp = sp.loop(int(mm.group(1)))
@@ -121,6 +121,8 @@ def load_specs(directory):
                         lp['decreases'] = val
                     elif mm.group(2) == 'assigns':
                         lp['assigns'] = val
+                    elif mm.group(2) in ('summary', 'summary_by'):
+                        lp[mm.group(2)] = val
                     else:
                         lp['invariant'][mm.group(3)] = val
                 else:
